@@ -251,7 +251,9 @@ class Concat(Expr):
                     else frame
                 )
                 for frame, cols in zip(self._frames, columns_frame)
-                if len(cols) > 0
+                # stacking rows: a frame without any of the selected columns
+                # still contributes its rows (as missing values)
+                if len(cols) > 0 or self.axis in (0, "index")
             ]
             result = type(self)(
                 self.join,
